@@ -167,6 +167,16 @@ def run_check(prop, tier, seed, replay_path=None):
             broken.append({"what": "axioms", "detail": bad_axioms})
         if checker_ok is False:
             broken.append({"what": "leanchecker", "detail": checker_log[-800:]})
+        # A fact the translator can no longer extract keeps its baseline value, so the obligations that consume it (cfg_good
+        # …) still build — but they are then statements about the OLD source shape: the translator half of the tie is broken
+        # for that fact. As for any broken obligation, the failing-input search runs (10x budget) and, when it finds
+        # nothing, the run ends with `VIOLATION … no-failing-input-found` naming the facts (the property is no longer
+        # SHOWN to hold by the theorems; a harmless reshaping of the code gives the same verdict, as the brief accepts).
+        skipped_now = sorted(k for k, v in ctx.fact_status.items() if v.get("state") == "skipped")
+        if skipped_now:
+            broken.append({"what": "translator",
+                           "detail": "fact(s) %s could not be extracted from the current source (%s); the theorems still use the baseline values"
+                                     % (", ".join(skipped_now), "; ".join("%s: %s" % (k, ctx.fact_status[k].get("reason", "?")) for k in skipped_now)[:600])})
         ctx.theorems_ok = not broken
         # ---------------------------------------------------------------- replay mode
         if replay_path is not None:
@@ -306,12 +316,9 @@ def run_check(prop, tier, seed, replay_path=None):
         ev["violations"] = len(violations)
         ev["wall_s"] = round(time.time() - t0, 2)
         write_evidence(prop, ev)
-        skipped = sorted(k for k, v in ctx.fact_status.items() if v.get("state") == "skipped")
-        if skipped:
-            # not an alarm (DESIGN §3.1): the shape of a function is no longer recognised, the theorems keep the
-            # baseline value of these facts and the tie rests on the correspondence alone — but say so loudly
-            out_lines.append("NOTE: property=%s translator skipped %d fact(s) (baseline values kept): %s"
-                             % (prop, len(skipped), ", ".join(skipped)))
+        if skipped_now:
+            out_lines.append("NOTE: property=%s translator could not extract %d fact(s) (baseline values kept; counted as a broken obligation): %s"
+                             % (prop, len(skipped_now), ", ".join(skipped_now)))
         for l in out_lines:
             print(l)
         for path, suffix in violations:
@@ -322,6 +329,13 @@ def run_check(prop, tier, seed, replay_path=None):
         return 1 if violations else 0
     finally:
         snap.close()
+        if os.path.realpath(build.REPO) != "/repo" or os.environ.get("VERIF_EVIDENCE_DIR"):
+            # scratch-tree run (seeded change, mutation sweep): do not leave its facts in the tracked Generated/ file
+            try:
+                with lean.LakeLock():
+                    extract.restore_baseline(prop)
+            except Exception:
+                pass
 
 
 def main(argv):
